@@ -66,6 +66,7 @@ Definition mem_rel (mm : option memory) (sm : option memory) : Prop :=
   match mm, sm with
   | None, None => True
   | Some a, Some b => mem_pages a = mem_pages b /\ mem_data a = mem_data b /\ Z.of_N (grow_limit cap b) = max_memory
+                      /\ (mem_pages b <= 65536)%N
   | _, _ => False
   end.
 
@@ -168,6 +169,7 @@ Definition gi_val (b : binstr) (srcs : list Z) (M : mstate) : option (sum trap_r
 Definition sim_gi (b : binstr) : bool :=
   match b with
   | BUnop T_i32 Extend32S => false
+  | BBinop _ RemS => false          (* finding F3: rem_s(MIN,-1) *)
   | BGlobalGet i => Z.of_nat i <? 65536
   | BUnop _ _ | BEqz _ | BCvt _ | BBinop _ _ | BRelop _ _ | BSelect | BMemorySize | BMemoryGrow => true
   | _ => false
@@ -245,7 +247,7 @@ Proof.
   intros Hsh Hsim Hlen Hidx Hcode' Fps Hd.
   destruct (gi_fields _ _ _ _ _ Hcode' Fps Hd) as (Hop & Himm & Hsrc & Hdst).
   rewrite (mstep_at M Hidx), Hop, N2Z.id. subst k.
-  destruct b; try discriminate Hsim; cbn [gi_shape] in Hsh; inversion Hsh; subst; clear Hsh;
+  destruct b; try discriminate Hsim; cbn [gi_shape] in Hsh; injection Hsh as Eo Ei Ek; subst opc imm;
     cbn [length Z.of_nat] in *; rewrite ?Z.add_0_r in *.
   - (* select *)
     destruct ps as [|p1 [|p2 [|p3 [|? ?]]]]; try discriminate.
@@ -259,8 +261,7 @@ Proof.
        SNext (set_pc (set_reg M (get_i32 c (ms_pc M + 1 + 12)) (if as_i32 top =? 0 then t2 else t1)) (ms_pc M + 1 + 16))).
     cbv zeta. replace (ms_pc M + 1 + 4) with (ms_pc M + 1 + 4 * 1) by lia. replace (ms_pc M + 1 + 8) with (ms_pc M + 1 + 4 * 2) by lia.
     replace (ms_pc M + 1 + 12) with (ms_pc M + 1 + 4 * 3) by lia.
-    replace (ms_pc M + 1) with (ms_pc M + 1 + 4 * 0) at 1 by lia.
-    rewrite E1, E2, E3, Hdst. unfold denote. do 2 f_equal. lia.
+    rewrite E1, E2, E3, Hdst. unfold denote. do 2 f_equal; try lia.
   - (* global.get *)
     destruct ps; try discriminate. apply Z.ltb_lt in Hsim.
     rewrite u16_bytes_length in *. cbn [length Z.of_nat Pos.of_succ_nat Pos.succ] in *. rewrite ?Z.mul_0_r, ?Z.add_0_r in *.
@@ -269,13 +270,13 @@ Proof.
     change (exec_op art mhost c consts M (ms_pc M + 1) IGlobalGet) with
       (let g := nth (Z.to_nat (get_u16 c (ms_pc M + 1))) (ms_globals M) 0 in
        SNext (set_pc (set_reg M (get_i32 c (ms_pc M + 1 + 2)) g) (ms_pc M + 1 + 6))).
-    cbv zeta. rewrite Eg, Hdst, Nat2Z.id. do 2 f_equal. lia.
+    cbv zeta. rewrite Eg, Hdst, Nat2Z.id. do 2 f_equal; try lia.
   - (* memory.size *)
     destruct ps; try discriminate. cbn [length Z.of_nat] in *. rewrite ?Z.mul_0_r, ?Z.add_0_r in *.
     eexists; split; [reflexivity|].
     change (exec_op art mhost c consts M (ms_pc M + 1) IMemorySize) with
       (SNext (set_pc (set_reg M (get_i32 c (ms_pc M + 1)) (from_i32 (mlen M / 65536))) (ms_pc M + 1 + 4))).
-    rewrite Hdst. do 2 f_equal. lia.
+    rewrite Hdst. do 2 f_equal; try lia.
   - (* memory.grow *)
     destruct ps as [|p1 [|? ?]]; try discriminate.
     pose proof (Hsrc 0%nat p1 eq_refl) as E1. cbn [length Z.of_nat Pos.of_succ_nat] in *. rewrite ?Z.mul_0_r, ?Z.add_0_r in *.
@@ -295,8 +296,8 @@ Proof.
          SNext (set_pc (set_reg st1 t (set_short (reg M t) sz)) (ms_pc M + 1 + 8))).
     cbv zeta. replace (ms_pc M + 1 + 4) with (ms_pc M + 1 + 4 * 1) by lia. rewrite E1, Hdst. unfold denote.
     destruct (mlen M / 65536 + as_u32 (get_local consts M (provider_idx p1)) >? max_memory).
-    + do 2 f_equal. lia.
-    + destruct (ms_mem M); [destruct (as_u32 (get_local consts M (provider_idx p1)) =? 0)|]; do 2 f_equal; lia.
+    + do 2 f_equal; try lia.
+    + destruct (ms_mem M); [destruct (as_u32 (get_local consts M (provider_idx p1)) =? 0)|]; do 2 f_equal; try lia.
   - (* unop *)
     destruct ps as [|p1 [|? ?]]; try discriminate.
     pose proof (Hsrc 0%nat p1 eq_refl) as E1. cbn [length Z.of_nat Pos.of_succ_nat] in *. rewrite ?Z.mul_0_r, ?Z.add_0_r in *.
@@ -304,9 +305,9 @@ Proof.
     destruct t.
     + assert (Ho : op <> Extend32S) by (intro; subst; discriminate).
       rewrite (exec_unop32 M _ op Ho). unfold unary. rewrite E1, Hdst.
-      eexists; split; [reflexivity|]. unfold denote. do 2 f_equal. lia.
+      eexists; split; [reflexivity|]. unfold denote. do 2 f_equal; try lia.
     + rewrite (exec_unop64 M _ op). unfold unary. rewrite E1, Hdst.
-      eexists; split; [reflexivity|]. unfold denote. do 2 f_equal. lia.
+      eexists; split; [reflexivity|]. unfold denote. do 2 f_equal; try lia.
   - (* binop *)
     destruct ps as [|p1 [|p2 [|? ?]]]; try discriminate.
     pose proof (Hsrc 0%nat p1 eq_refl) as E1. pose proof (Hsrc 1%nat p2 eq_refl) as E2.
@@ -316,16 +317,16 @@ Proof.
     destruct t.
     + rewrite (exec_binop32 M _ op). unfold binary. rewrite E1, E2, Hdst. cbn [map]. unfold denote.
       eexists; split; [reflexivity|].
-      destruct (rs_binop 32 op _ _ _ _); [reflexivity|]. do 2 f_equal. lia.
+      destruct (rs_binop 32 op _ _ _ _); [reflexivity|]. do 2 f_equal; try lia.
     + rewrite (exec_binop64 M _ op). unfold binary. rewrite E1, E2, Hdst. cbn [map]. unfold denote.
       eexists; split; [reflexivity|].
-      destruct (rs_binop 64 op _ _ _ _); [reflexivity|]. do 2 f_equal. lia.
+      destruct (rs_binop 64 op _ _ _ _); [reflexivity|]. do 2 f_equal; try lia.
   - (* eqz *)
     destruct ps as [|p1 [|? ?]]; try discriminate.
     pose proof (Hsrc 0%nat p1 eq_refl) as E1. cbn [length Z.of_nat Pos.of_succ_nat] in *. rewrite ?Z.mul_0_r, ?Z.add_0_r in *.
     replace (ms_pc M + 1 + 4 * 1) with (ms_pc M + 1 + 4) in Hdst by lia.
     destruct t; [rewrite exec_eqz32|rewrite exec_eqz64]; unfold unary; rewrite E1, Hdst;
-      (eexists; split; [reflexivity|]); unfold denote; do 2 f_equal; lia.
+      (eexists; split; [reflexivity|]); cbv beta iota; unfold denote; do 2 f_equal; try lia.
   - (* relop *)
     destruct ps as [|p1 [|p2 [|? ?]]]; try discriminate.
     pose proof (Hsrc 0%nat p1 eq_refl) as E1. pose proof (Hsrc 1%nat p2 eq_refl) as E2.
@@ -333,13 +334,502 @@ Proof.
     replace (ms_pc M + 1 + 4 * 1) with (ms_pc M + 1 + 4) in E2 by lia.
     replace (ms_pc M + 1 + 4 * 2) with (ms_pc M + 1 + 8) in Hdst by lia.
     destruct t; [rewrite exec_relop32|rewrite exec_relop64]; unfold binary; rewrite E1, E2, Hdst; cbn [map]; unfold denote;
-      (eexists; split; [reflexivity|]); do 2 f_equal; lia.
+      (eexists; split; [reflexivity|]); cbv beta iota; do 2 f_equal; try lia.
   - (* cvt *)
     destruct ps as [|p1 [|? ?]]; try discriminate.
     pose proof (Hsrc 0%nat p1 eq_refl) as E1. cbn [length Z.of_nat Pos.of_succ_nat] in *. rewrite ?Z.mul_0_r, ?Z.add_0_r in *.
     replace (ms_pc M + 1 + 4 * 1) with (ms_pc M + 1 + 4) in Hdst by lia.
     rewrite exec_cvt. unfold unary. rewrite E1, Hdst.
-    destruct op; (eexists; split; [reflexivity|]); unfold denote; do 2 f_equal; lia.
+    destruct op; (eexists; split; [reflexivity|]); cbv beta iota; unfold denote; do 2 f_equal; try lia.
+Qed.
+
+(** ** the machine operators only look at the part of a register the value type uses *)
+Lemma low32_idem r : low32 (low32 r) = low32 r.
+Proof. unfold low32, two32. apply Z.mod_mod. lia. Qed.
+Lemma as_u64_idem r : as_u64 (as_u64 r) = as_u64 r.
+Proof. unfold as_u64, two64. apply Z.mod_mod. lia. Qed.
+Lemma range32_low r : IntNProofs.in_range 32 (low32 r).
+Proof. unfold IntNProofs.in_range. change (modulus 32) with 4294967296. apply low32_range. Qed.
+Lemma range64_u64 r : IntNProofs.in_range 64 (as_u64 r).
+Proof. unfold IntNProofs.in_range. change (modulus 64) with 18446744073709551616. apply as_u64_range. Qed.
+Lemma as_i32_repr r : as_i32 r = signed 32 (low32 r).
+Proof. rewrite as_i32_low. apply as_i32_signed. apply range32_low. Qed.
+Lemma as_i64_repr r : as_i64 r = signed 64 (as_u64 r).
+Proof. rewrite as_i64_low. apply as_i64_signed. apply range64_u64. Qed.
+Lemma as_i32_eqb0 r : (as_i32 r =? 0) = (low32 r =? 0).
+Proof.
+  rewrite as_i32_repr. pose proof (signed_eq0 32 (low32 r) ltac:(lia) (range32_low r)) as E.
+  destruct (Z.eqb_spec (signed 32 (low32 r)) 0), (Z.eqb_spec (low32 r) 0); tauto.
+Qed.
+Lemma rs_unop32_low o s : rs_unop32 o s = rs_unop32 o (low32 s).
+Proof.
+  assert (A : as_i32 (low32 s) = as_i32 s) by (symmetry; apply as_i32_low).
+  assert (B : as_u32 (low32 s) = as_u32 s) by (unfold as_u32; apply low32_idem).
+  destruct o; cbn [rs_unop32]; rewrite ?A, ?B; reflexivity.
+Qed.
+Lemma rs_unop64_low o s : rs_unop64 o s = rs_unop64 o (as_u64 s).
+Proof.
+  assert (A : as_i64 (as_u64 s) = as_i64 s) by (symmetry; apply as_i64_low).
+  assert (B : as_u64 (as_u64 s) = as_u64 s) by apply as_u64_idem.
+  destruct o; cbn [rs_unop64]; rewrite ?A, ?B; reflexivity.
+Qed.
+
+Definition mupd (M Mm : mstate) : Prop :=
+  ms_pc Mm = ms_pc M /\ ms_idx Mm = ms_idx M /\ ms_frames Mm = ms_frames M /\ ms_ret Mm = ms_ret M
+  /\ ms_regs Mm = ms_regs M /\ ms_base Mm = ms_base M /\ ms_globals Mm = ms_globals M /\ ms_energy Mm = ms_energy M.
+Lemma mupd_refl M : mupd M M. Proof. repeat split. Qed.
+
+Lemma repr_short old x z : x mod 4294967296 = z -> repr (set_short old x) (VI32 z).
+Proof. intros <-. cbn. apply low32_set_short. Qed.
+Lemma repr_long old x z : x mod 18446744073709551616 = z -> repr (set_long old x) (VI64 z).
+Proof. intros <-. cbn. apply as_u64_set_long. Qed.
+
+Definition gi_post (M : mstate) (res : sum trap_reason ((Z -> Z) * mstate)) (st' : store) (v' : val) : Prop :=
+  exists w Mm, res = inr (w, Mm) /\ (forall old, repr (w old) v')
+               /\ mupd M Mm /\ Forall2 repr (ms_globals Mm) (s_globals st') /\ mem_rel (ms_mem Mm) (s_mem st').
+
+Lemma gi_sem b srcs M res st locals tops vs :
+  sim_gi b = true -> gi_val b srcs M = Some res -> Forall2 repr srcs tops ->
+  Forall2 repr (ms_globals M) (s_globals st) -> mem_rel (ms_mem M) (s_mem st) ->
+  match exec_simple cap b st locals (tops ++ vs) with
+  | inr (st', l', vs') => exists v', l' = locals /\ vs' = v' :: vs /\ gi_post M res st' v'
+  | inl true => exists e, res = inl e
+  | inl false => True
+  end.
+Proof.
+  intros Hsim Hv Hrep Hg Hm.
+  assert (POST : forall w v', (forall old, repr (w old) v') -> gi_post M (inr (w, M)) st v').
+  { intros w v' Hw. exists w, M. repeat split; auto. }
+  destruct b; try discriminate Hsim; cbn [gi_val] in Hv.
+  - (* select *)
+    destruct srcs as [|top [|t2 [|t1 [|? ?]]]]; try discriminate. inversion Hv; subst; clear Hv.
+    inversion Hrep as [|? vc ? ? Rc Hr1]; subst. inversion Hr1 as [|? v2 ? ? R2 Hr2]; subst.
+    inversion Hr2 as [|? v1 ? ? R1 Hr3]; subst. inversion Hr3; subst. cbn [app].
+    destruct vc as [cz|cz]; cbn [exec_simple]; [|exact I].
+    destruct (valtype_eqb (type_of_val v1) (type_of_val v2)); [|exact I]. cbn [ok].
+    eexists; split; [reflexivity|split; [reflexivity|]]. apply POST. intros _.
+    rewrite as_i32_eqb0. cbn in Rc. rewrite Rc. destruct (cz =? 0); assumption.
+  - (* global.get *)
+    destruct srcs; try discriminate. inversion Hv; subst; clear Hv. inversion Hrep; subst. cbn [app exec_simple].
+    unfold nth_opt. destruct (nth_error (s_globals st) i) as [v|] eqn:E; [|exact I]. cbn [ok].
+    eexists; split; [reflexivity|split; [reflexivity|]]. apply POST. intros _.
+    clear - Hg E. revert i E. induction Hg; intros [|i] E; cbn in *; try discriminate.
+    + inversion E; subst. assumption.
+    + apply IHHg. exact E.
+  - (* memory.size *)
+    destruct srcs; try discriminate. inversion Hv; subst; clear Hv. inversion Hrep; subst. cbn [app exec_simple].
+    destruct (s_mem st) as [sm|] eqn:Es; [|exact I]. cbn [ok].
+    eexists; split; [reflexivity|split; [reflexivity|]]. apply POST. intros _.
+    unfold mem_rel in Hm. destruct (ms_mem M) as [mm|] eqn:Em; [|contradiction]. destruct Hm as (Hp & Hd & Hl & Hb).
+    cbn. unfold mlen. rewrite Em. unfold mem_len, page_size. rewrite Hp. unfold from_i32, low32, two32.
+    rewrite N2Z.inj_mul. change (Z.of_N 65536) with 65536. rewrite Z.div_mul by lia. rewrite Z.mod_mod by lia.
+    apply Z.mod_small. lia.
+  - (* memory.grow *)
+    destruct srcs as [|s1 [|? ?]]; try discriminate. inversion Hv; subst; clear Hv.
+    inversion Hrep as [|? v ? ? R1 Hr1]; subst. inversion Hr1; subst. cbn [app].
+    destruct v as [n|n]; cbn [exec_simple]; [|exact I].
+    destruct (s_mem st) as [sm|] eqn:Es; [|exact I].
+    unfold mem_rel in Hm. destruct (ms_mem M) as [mm|] eqn:Em; [|contradiction]. destruct Hm as (Hp & Hd & Hl & Hb).
+    cbn in R1. assert (Hn : 0 <= n < 4294967296) by (rewrite <- R1; apply low32_range).
+    unfold mem_grow, grow_result. unfold as_u32. rewrite R1.
+    assert (Esz : mlen M / 65536 = Z.of_N (mem_pages sm)).
+    { unfold mlen. rewrite Em. unfold mem_len, page_size. rewrite Hp, N2Z.inj_mul. change (Z.of_N 65536) with 65536.
+      apply Z.div_mul. lia. }
+    rewrite Esz. rewrite <- Hl.
+    destruct (N.leb_spec (mem_pages sm + Z.to_N n) (grow_limit cap sm)) as [Hle|Hgt].
+    + destruct (Z.gtb_spec (Z.of_N (mem_pages sm) + n) (Z.of_N (grow_limit cap sm))) as [G|G]; [lia|].
+      cbn [ok]. eexists; split; [reflexivity|split; [reflexivity|]].
+      eexists _, _. split; [reflexivity|]. split.
+      * intros old. apply repr_short. apply Z.mod_small.
+        assert (grow_limit cap sm <= 65536)%N by (unfold grow_limit; lia). lia.
+      * rewrite Em. assert (L : (grow_limit cap sm <= 65536)%N) by (unfold grow_limit; lia).
+        destruct (Z.eqb_spec n 0) as [->|Hn0].
+        -- split; [apply mupd_refl|]. split; [exact Hg|]. unfold with_mem, set_mem; cbn [s_mem]. rewrite Em.
+           cbn. rewrite N.add_0_r. repeat split; auto.
+        -- split; [repeat split|]. split; [exact Hg|]. unfold with_mem, set_mem; cbn [s_mem ms_mem set_mmem].
+           repeat split; cbn; auto; lia.
+    + destruct (Z.gtb_spec (Z.of_N (mem_pages sm) + n) (Z.of_N (grow_limit cap sm))) as [G|G]; [|lia].
+      cbn [ok]. eexists; split; [reflexivity|split; [reflexivity|]].
+      eexists _, M. split; [reflexivity|]. split; [intros old; apply repr_short; reflexivity|].
+      split; [apply mupd_refl|]. split; [exact Hg|]. unfold with_mem, set_mem; cbn [s_mem]. rewrite Em. repeat split; auto.
+  - (* unop *)
+    destruct srcs as [|s1 [|? ?]]; try (destruct t; discriminate).
+    inversion Hrep as [|? v ? ? R1 Hr1]; subst. inversion Hr1; subst. cbn [app exec_simple].
+    destruct t, v as [z|z]; cbn [payload]; try exact I; inversion Hv; subst; clear Hv; cbn in R1.
+    + assert (Ho : op <> Extend32S) by (intro; subst; discriminate).
+      rewrite (rs_unop32_agrees op z); [|rewrite <- R1; apply range32_low|exact Ho]. cbn [ok mkval].
+      eexists; split; [reflexivity|split; [reflexivity|]]. apply POST. intros old. apply repr_short.
+      rewrite rs_unop32_low, R1. reflexivity.
+    + rewrite (rs_unop64_agrees op z); [|rewrite <- R1; apply range64_u64]. cbn [ok mkval].
+      eexists; split; [reflexivity|split; [reflexivity|]]. apply POST. intros old. apply repr_long.
+      rewrite rs_unop64_low, R1. reflexivity.
+  - (* binop *)
+    destruct srcs as [|r [|l [|? ?]]]; try (destruct t; discriminate).
+    inversion Hrep as [|? v2 ? ? R2 Hr1]; subst. inversion Hr1 as [|? v1 ? ? R1 Hr2]; subst. inversion Hr2; subst.
+    cbn [app exec_simple].
+    assert (Hop : op <> RemS) by (intro; subst; destruct t; discriminate).
+    destruct t, v1 as [x|x], v2 as [y|y]; cbn [payload]; try exact I; inversion Hv; subst; clear Hv; cbn in R1, R2.
+    + pose proof (rs_binop_agrees_all T_i32 op x y ltac:(rewrite <- R1; apply range32_low)
+                    ltac:(rewrite <- R2; apply range32_low) ltac:(intros; contradiction)) as A.
+      cbn [bits] in A. rewrite !as_i32_repr. unfold as_u32. rewrite R1, R2.
+      destruct (rs_binop 32 op (signed 32 x) (signed 32 y) x y) as [e|q]; rewrite A.
+      * eexists; reflexivity.
+      * cbn [ok mkval]. eexists; split; [reflexivity|split; [reflexivity|]]. apply POST. intros old.
+        apply repr_short. reflexivity.
+    + pose proof (rs_binop_agrees_all T_i64 op x y ltac:(rewrite <- R1; apply range64_u64)
+                    ltac:(rewrite <- R2; apply range64_u64) ltac:(intros; contradiction)) as A.
+      cbn [bits] in A. rewrite !as_i64_repr. rewrite R1, R2.
+      destruct (rs_binop 64 op (signed 64 x) (signed 64 y) x y) as [e|q]; rewrite A.
+      * eexists; reflexivity.
+      * cbn [ok mkval]. eexists; split; [reflexivity|split; [reflexivity|]]. apply POST. intros old.
+        apply repr_long. reflexivity.
+  - (* eqz *)
+    destruct srcs as [|s1 [|? ?]]; try (destruct t; discriminate).
+    inversion Hrep as [|? v ? ? R1 Hr1]; subst. inversion Hr1; subst. cbn [app exec_simple].
+    destruct t, v as [z|z]; cbn [payload]; try exact I; inversion Hv; subst; clear Hv; cbn in R1; cbn [ok].
+    + eexists; split; [reflexivity|split; [reflexivity|]]. apply POST. intros old. apply repr_short.
+      destruct (rs_eqz_agrees z) as [E _]. cbn [bits]. rewrite <- E by (rewrite <- R1; apply range32_low).
+      assert (L : rs_eqz32 s1 = rs_eqz32 z) by (unfold rs_eqz32; rewrite (as_i32_low s1), R1; reflexivity).
+      rewrite L. unfold rs_eqz32. destruct (as_i32 z =? 0); reflexivity.
+    + eexists; split; [reflexivity|split; [reflexivity|]]. apply POST. intros old. apply repr_short.
+      destruct (rs_eqz_agrees z) as [_ E]. cbn [bits]. rewrite <- E by (rewrite <- R1; apply range64_u64).
+      assert (L : rs_eqz64 s1 = rs_eqz64 z) by (unfold rs_eqz64; rewrite (as_i64_low s1), R1; reflexivity).
+      rewrite L. unfold rs_eqz64. destruct (as_i64 z =? 0); reflexivity.
+  - (* relop *)
+    destruct srcs as [|r [|l [|? ?]]]; try (destruct t; discriminate).
+    inversion Hrep as [|? v2 ? ? R2 Hr1]; subst. inversion Hr1 as [|? v1 ? ? R1 Hr2]; subst. inversion Hr2; subst.
+    cbn [app exec_simple].
+    destruct t, v1 as [x|x], v2 as [y|y]; cbn [payload]; try exact I; inversion Hv; subst; clear Hv; cbn in R1, R2; cbn [ok].
+    + eexists; split; [reflexivity|split; [reflexivity|]]. apply POST. intros old. apply repr_short.
+      rewrite !as_i32_repr. unfold as_u32. rewrite R1, R2.
+      pose proof (rs_relop_all T_i32 op x y ltac:(rewrite <- R1; apply range32_low) ltac:(rewrite <- R2; apply range32_low)) as A.
+      cbn [bits] in A. rewrite A.
+      apply Z.mod_small. unfold app_relop, ieq, ine, ilt_s, ilt_u, igt_s, igt_u, ile_s, ile_u, ige_s, ige_u, bool_to_Z.
+      destruct op; match goal with |- context [if ?b then _ else _] => destruct b end; lia.
+    + eexists; split; [reflexivity|split; [reflexivity|]]. apply POST. intros old. apply repr_short.
+      rewrite !as_i64_repr. rewrite R1, R2.
+      pose proof (rs_relop_all T_i64 op x y ltac:(rewrite <- R1; apply range64_u64) ltac:(rewrite <- R2; apply range64_u64)) as A.
+      cbn [bits] in A. rewrite A.
+      apply Z.mod_small. unfold app_relop, ieq, ine, ilt_s, ilt_u, igt_s, igt_u, ile_s, ile_u, ige_s, ige_u, bool_to_Z.
+      destruct op; match goal with |- context [if ?b then _ else _] => destruct b end; lia.
+  - (* cvt *)
+    destruct srcs as [|s1 [|? ?]]; try (destruct op; discriminate).
+    inversion Hrep as [|? v ? ? R1 Hr1]; subst. inversion Hr1; subst. cbn [app].
+    destruct (rs_cvt_agrees (match v with VI32 z | VI64 z => z end)) as (C1 & C2 & C3).
+    destruct op, v as [z|z]; cbn [exec_simple]; try exact I; inversion Hv; subst; clear Hv; cbn in R1; cbn [ok].
+    + eexists; split; [reflexivity|split; [reflexivity|]]. apply POST. intros old. apply repr_short.
+      rewrite <- C1 by (rewrite <- R1; apply range64_u64). cbn [rs_cvt]. rewrite as_i64_low, R1. reflexivity.
+    + eexists; split; [reflexivity|split; [reflexivity|]]. apply POST. intros old. apply repr_long.
+      rewrite <- C2 by (rewrite <- R1; apply range32_low). cbn [rs_cvt]. rewrite as_i32_low, R1. reflexivity.
+    + eexists; split; [reflexivity|split; [reflexivity|]]. apply POST. intros old. apply repr_long.
+      rewrite <- C3 by (rewrite <- R1; apply range32_low). cbn [rs_cvt]. unfold as_u32. rewrite R1.
+      rewrite <- R1. unfold as_u32. rewrite low32_idem. reflexivity.
+Qed.
+
+(** ** compile side of the generic instructions *)
+Lemma emit_imm_out s imm : c_out (emit_imm s imm) = c_out s ++ imm /\ same_alloc s (emit_imm s imm)
+  /\ c_bp (emit_imm s imm) = c_bp s /\ c_last (emit_imm s imm) = c_last s.
+Proof. destruct imm; cbn; rewrite ?app_nil_r; repeat split; auto. Qed.
+
+Lemma gi_compile s opc imm k prov s1 :
+  cwf nl s -> gi (set_last s None) opc imm k prov = Some s1 ->
+  exists ps rest, c_stack s = ps ++ rest /\ length ps = k /\ Forall (pwf nl s) ps
+  /\ c_consts s1 = c_consts s /\ c_bp s1 = c_bp s /\ cwf nl s1 /\ c_next s <= c_next s1 <= c_next s + 1
+  /\ if prov then
+       exists r, c_stack s1 = PDyn r :: rest /\ nl <= r < c_next s1 /\ ~ In (PDyn r) rest
+                 /\ c_out s1 = c_out s ++ opc :: imm ++ loc_bytes ps ++ i32_bytes r
+                 /\ c_last s1 = Some (cur_off s + 1 + Z.of_nat (length imm) + 4 * Z.of_nat k)
+     else c_stack s1 = rest /\ c_out s1 = c_out s ++ opc :: imm ++ loc_bytes ps /\ c_last s1 = None.
+Proof.
+  intros W H. unfold gi in H.
+  destruct (emit_imm_out (push_op (set_last s None) opc) imm) as (Eo & Sa & Eb & El).
+  assert (W0 : cwf nl (emit_imm (push_op (set_last s None) opc) imm)).
+  { eapply cwf_same; [|exact W]. eapply same_alloc_trans; [|exact Sa]. repeat split. }
+  destruct (push_consume_n k (emit_imm (push_op (set_last s None) opc) imm)) as [s2|] eqn:E; [|discriminate].
+  destruct (push_consume_n_spec nl k _ _ E W0) as (ps & Es & Lps & Eo2 & Eb2 & El2 & En2 & Ec2 & W2 & Fp).
+  destruct Sa as (Sa1 & Sa2 & Sa3 & Sa4). cbn [c_stack c_next c_reuse c_consts push_op emit set_out set_last] in Sa1, Sa2, Sa3, Sa4.
+  exists ps, (c_stack s2). rewrite Sa1 in Es.
+  assert (Fp' : Forall (pwf nl s) ps).
+  { eapply Forall_impl; [|exact Fp]. intros q Hq. eapply pwf_ext; [| | |exact Hq]; auto. }
+  cbn [c_out push_op emit set_out set_last] in Eo. cbn [c_bp c_last push_op emit set_out set_last] in Eb, El.
+  destruct prov; inversion H; subst; clear H.
+  - destruct (push_provide_spec nl s2 W2) as (r & Ps & Po & Pl & Pb & Pc & Pn & Pr & Pnin & Pw).
+    splits; auto; try congruence; try lia.
+    exists r. splits; auto; try lia.
+    + rewrite Po, Eo2, Eo. rewrite <- !app_assoc. reflexivity.
+    + rewrite Pl. unfold cur_off. rewrite Eo2, Eo. rewrite !app_length, loc_bytes_length. cbn [length]. f_equal. lia.
+  - splits; auto; try congruence; try lia.
+    all: try (rewrite Eo2, Eo; rewrite <- !app_assoc; reflexivity).
+    all: try (rewrite El2, El; reflexivity).
+Qed.
+
+(** ** writing a register that no provider refers to *)
+Lemma get_local_mupd M Mm i : mupd M Mm -> get_local consts Mm i = get_local consts M i.
+Proof. intros (_ & _ & _ & _ & Er & Eb & _). unfold get_local, reg. rewrite Er, Eb. reflexivity. Qed.
+
+Lemma denote_write M Mm d x pc q :
+  mupd M Mm -> 0 <= d -> (ms_base M + Z.to_nat d < length (ms_regs M))%nat -> provider_idx q <> d ->
+  denote (set_pc (set_reg Mm d x) pc) q = denote M q.
+Proof.
+  intros U H0 Hl Hne. unfold denote. rewrite get_local_set_pc.
+  destruct U as (U1 & U2 & U3 & U4 & Er & Eb & U5). rewrite get_local_set_reg by (rewrite ?Er, ?Eb; auto).
+  destruct (Z.eqb_spec (provider_idx q) d); [contradiction|]. apply get_local_mupd. repeat split; auto; tauto.
+Qed.
+Lemma denote_write_same M Mm d x pc :
+  mupd M Mm -> 0 <= d -> (ms_base M + Z.to_nat d < length (ms_regs M))%nat ->
+  get_local consts (set_pc (set_reg Mm d x) pc) d = x.
+Proof.
+  intros U H0 Hl. rewrite get_local_set_pc. destruct U as (U1 & U2 & U3 & U4 & Er & Eb & U5).
+  rewrite get_local_set_reg by (rewrite ?Er, ?Eb; auto). rewrite Z.eqb_refl. reflexivity.
+Qed.
+
+Lemma pwf_idx_ne_dyn s q r : 0 <= nl -> pwf nl s q -> nl <= r -> q <> PDyn r -> provider_idx q <> r.
+Proof.
+  intros Hnl H Hr Hne E. destruct q as [r'|i|k]; cbn in *.
+  - subst. apply Hne; reflexivity.
+  - lia.
+  - destruct H. lia.
+Qed.
+
+Lemma Forall2_app_inv_l' {A B} (R : A -> B -> Prop) l1 l2 l :
+  Forall2 R (l1 ++ l2) l -> exists a b, l = a ++ b /\ Forall2 R l1 a /\ Forall2 R l2 b.
+Proof. intros H. apply Forall2_app_inv_l in H. destruct H as (a & b & H1 & H2 & E). exists a, b. auto. Qed.
+
+Lemma frame_eq_write M Mm d x pc : mupd M Mm -> frame_eq M (set_pc (set_reg Mm d x) pc).
+Proof.
+  intros (U1 & U2 & U3 & U4 & Er & Eb & U5 & U6). unfold frame_eq. cbn. rewrite list_set_length, Er. repeat split; auto.
+Qed.
+
+Definition sim_result (M : mstate) (s1 : cstate) (r : step_result) : Prop :=
+  match r with
+  | inr (st', l', vs') => cwf nl s1 /\ exists n M', nsteps n M = SNext M' /\ rel s1 st' l' vs' M' /\ frame_eq M M'
+  | inl true => exists n e, nsteps n M = STrap e
+  | inl false => True
+  end.
+
+Lemma Forall2_map_l {A B C} (f : A -> B) (R : B -> C -> Prop) l l' :
+  Forall2 (fun a c => R (f a) c) l l' -> Forall2 R (map f l) l'.
+Proof. induction 1; cbn; constructor; auto. Qed.
+Lemma Forall2_impl_in {A B} (R R' : A -> B -> Prop) l l' :
+  Forall2 R l l' -> (forall a b, In a l -> R a b -> R' a b) -> Forall2 R' l l'.
+Proof. induction 1; intros H'; constructor; [apply H'; cbn; auto|apply IHForall2; intros; apply H'; cbn; auto]. Qed.
+
+Lemma small_idx_ok s ps : cwf nl s -> small s -> Forall (pwf nl s) ps -> Forall (fun p => idx_ok (provider_idx p)) ps.
+Proof.
+  intros W S F. eapply Forall_impl; [|exact F]. intros p Hp. eapply idx_ok_of_pwf; eauto. apply W.
+Qed.
+
+(** the machine executes one generic instruction with an arbitrary target register [d] *)
+Lemma gi_core b opc imm k s ps rest st locals vs M d :
+  gi_shape b = Some (opc, imm, k, true) -> sim_gi b = true -> cwf nl s -> small s ->
+  c_stack s = ps ++ rest -> length ps = k -> rel s st locals vs M -> idx_ok d ->
+  code_at c (cur_off s) (opc :: imm ++ loc_bytes ps ++ i32_bytes d) ->
+  exists tops restv, vs = tops ++ restv /\ Forall2 (fun p v => repr (denote M p) v) rest restv /\
+  match exec_simple cap b st locals vs with
+  | inr (st', l', vs') =>
+      exists v' w Mm, l' = locals /\ vs' = v' :: restv
+        /\ mstep M = SNext (set_pc (set_reg Mm d (w (reg Mm d))) (cur_off s + 1 + Z.of_nat (length imm) + 4 * Z.of_nat k + 4))
+        /\ (forall old, repr (w old) v') /\ mupd M Mm
+        /\ Forall2 repr (ms_globals Mm) (s_globals st') /\ mem_rel (ms_mem Mm) (s_mem st')
+  | inl true => exists e, mstep M = STrap e
+  | inl false => True
+  end.
+Proof.
+  intros Hsh Hsim W S Es Lps R Hd Hc.
+  pose proof (r_stack _ _ _ _ _ R) as RS. rewrite Es in RS.
+  destruct (Forall2_app_inv_l' _ _ _ _ RS) as (tops & restv & Evs & Rt & Rr).
+  exists tops, restv. split; [exact Evs|]. split; [exact Rr|].
+  assert (Fps : Forall (pwf nl s) ps).
+  { pose proof (w_stack _ _ W) as F. rewrite Es in F. apply Forall_app in F. tauto. }
+  rewrite <- (r_pc _ _ _ _ _ R) in Hc.
+  destruct (gi_machine b opc imm k ps d M Hsh Hsim Lps (r_idx _ _ _ _ _ R) Hc (small_idx_ok s ps W S Fps) Hd) as (res & Hval & Hstep).
+  pose proof (gi_sem b (map (denote M) ps) M res st locals tops restv Hsim Hval (Forall2_map_l _ _ _ _ Rt)
+                (r_globals _ _ _ _ _ R) (r_mem _ _ _ _ _ R)) as HS.
+  rewrite <- Evs in HS.
+  destruct (exec_simple cap b st locals vs) as [[|]|[[st' l'] vs']].
+  - destruct HS as (e & ->). exists e. exact Hstep.
+  - exact I.
+  - destruct HS as (v' & El & Ev & (w & Mm & Eres & Hw & U & Gl & Me)). subst res.
+    exists v', w, Mm. rewrite (r_pc _ _ _ _ _ R) in Hstep. splits; auto.
+Qed.
+
+(** re-establishing [rel] after a write to a register [d] that no stack entry refers to *)
+Lemma rel_after_write s s1 st st' locals locals' vs vs1 M Mm d x pc stack1 :
+  rel s st locals vs M -> True ->
+  mupd M Mm -> 0 <= d < NR -> c_stack s1 = stack1 -> cur_off s1 = pc ->
+  Forall2 (fun p v => repr (get_local consts (set_pc (set_reg Mm d x) pc) (provider_idx p)) v) stack1 vs1 ->
+  Z.of_nat (length locals') = nl ->
+  (forall i v, nth_error locals' i = Some v -> repr (get_local consts (set_pc (set_reg Mm d x) pc) (Z.of_nat i)) v) ->
+  Forall2 repr (ms_globals Mm) (s_globals st') -> mem_rel (ms_mem Mm) (s_mem st') ->
+  rel s1 st' locals' vs1 (set_pc (set_reg Mm d x) pc).
+Proof.
+  intros R _ U Hd Es Ep Hs Hn Hl Hg Hm.
+  destruct U as (U1 & U2 & U3 & U4 & Er & Eb & U5 & U6).
+  constructor; cbn [ms_idx ms_pc ms_regs ms_base ms_globals ms_mem set_pc set_reg]; auto.
+  - rewrite U2. apply (r_idx _ _ _ _ _ R).
+  - rewrite list_set_length, Er, Eb. apply (r_regs _ _ _ _ _ R).
+  - rewrite Es. exact Hs.
+  - intros i v Hi. specialize (Hl i v Hi). unfold get_local in Hl.
+    destruct (Z.leb_spec 0 (Z.of_nat i)); [exact Hl|lia].
+Qed.
+
+Lemma get_local_nonneg M i : 0 <= i -> get_local consts M i = reg M i.
+Proof. intros H. unfold get_local. destruct (Z.leb_spec 0 i); [reflexivity|lia]. Qed.
+
+Lemma reg_in_range s st locals vs M d : rel s st locals vs M -> 0 <= d < NR ->
+  (ms_base M + Z.to_nat d < length (ms_regs M))%nat.
+Proof. intros R Hd. pose proof (r_regs _ _ _ _ _ R). lia. Qed.
+
+Lemma locals_kept s st locals vs M Mm d x pc :
+  rel s st locals vs M -> mupd M Mm -> nl <= d < NR -> 0 <= nl ->
+  forall i v, nth_error locals i = Some v ->
+    repr (get_local consts (set_pc (set_reg Mm d x) pc) (Z.of_nat i)) v.
+Proof.
+  intros R U Hd Hnl i v Hi.
+  assert (Z.of_nat i < nl).
+  { rewrite <- (r_nl _ _ _ _ _ R). apply inj_lt. apply nth_error_Some. congruence. }
+  change (get_local consts (set_pc (set_reg Mm d x) pc) (Z.of_nat i))
+    with (denote (set_pc (set_reg Mm d x) pc) (PLocal (Z.of_nat i))).
+  rewrite (denote_write M Mm d x pc (PLocal (Z.of_nat i)) U); try lia.
+  - unfold denote. cbn [provider_idx]. rewrite get_local_nonneg by lia. apply (r_locals _ _ _ _ _ R). exact Hi.
+  - eapply reg_in_range; eauto. lia.
+  - cbn. lia.
+Qed.
+
+Lemma stack_kept s st locals vs M Mm d x pc rest restv :
+  rel s st locals vs M -> mupd M Mm -> 0 <= d < NR ->
+  Forall2 (fun p v => repr (denote M p) v) rest restv ->
+  (forall q, In q rest -> provider_idx q <> d) ->
+  Forall2 (fun p v => repr (get_local consts (set_pc (set_reg Mm d x) pc) (provider_idx p)) v) rest restv.
+Proof.
+  intros R U Hd F Hne. eapply Forall2_impl_in; [exact F|]. intros q v Hq Hr.
+  change (get_local consts (set_pc (set_reg Mm d x) pc) (provider_idx q)) with (denote (set_pc (set_reg Mm d x) pc) q).
+  rewrite (denote_write M Mm d x pc q U); auto; try lia. eapply reg_in_range; eauto.
+Qed.
+
+Lemma small_mono s s1 : small s1 -> c_next s <= c_next s1 -> c_consts s1 = c_consts s -> small s.
+Proof. intros [A B] Hn Hc. split; [lia|rewrite <- Hc; exact B]. Qed.
+
+Definition mono (s s1 : cstate) : Prop := c_next s <= c_next s1 /\ exists ext, c_consts s1 = c_consts s ++ ext.
+Definition step_ok (s s1 : cstate) (M : mstate) (r : step_result) : Prop :=
+  exists tail, c_out s1 = c_out s ++ tail /\ mono s s1 /\ (code_at c (cur_off s) tail -> sim_result M s1 r).
+
+Lemma step_gi_prov b opc imm k s s1 st locals vs M :
+  gi_shape b = Some (opc, imm, k, true) -> sim_gi b = true -> cwf nl s -> small s1 ->
+  gi (set_last s None) opc imm k true = Some s1 -> rel s st locals vs M ->
+  step_ok s s1 M (exec_simple cap b st locals vs) /\ c_last s1 <> None
+  /\ exists r rest, c_stack s1 = PDyn r :: rest /\ ~ In (PDyn r) rest /\ nl <= r.
+Proof.
+  intros Hsh Hsim W S1 Hgi R.
+  destruct (gi_compile s opc imm k true s1 W Hgi) as (ps & rest & Es & Lps & Fps & Ec & Eb & W1 & Bn & (r & Es1 & Br & Nin & Eo & El)).
+  split; [|split; [rewrite El; discriminate|exists r, rest; splits; auto; lia]].
+  exists (opc :: imm ++ loc_bytes ps ++ i32_bytes r). split; [exact Eo|]. split; [split; [lia|exists []; rewrite app_nil_r; exact Ec]|]. intros Hc.
+  assert (S : small s) by (eapply small_mono; eauto; lia).
+  assert (Hnl : 0 <= nl) by apply W.
+  assert (Hr : idx_ok r) by (destruct S1; unfold idx_ok; lia).
+  destruct (gi_core b opc imm k s ps rest st locals vs M r Hsh Hsim W S Es Lps R Hr Hc) as (tops & restv & Evs & Rr & HS).
+  unfold sim_result. destruct (exec_simple cap b st locals vs) as [[|]|[[st' l'] vs']].
+  - destruct HS as (e & He). exists 1%nat, e. cbn. rewrite He. reflexivity.
+  - exact I.
+  - destruct HS as (v' & w & Mm & -> & -> & Hstep & Hw & U & Gl & Me).
+    split; [exact W1|].
+    eexists 1%nat, _. split; [cbn; rewrite Hstep; reflexivity|]. split; [|apply frame_eq_write; exact U].
+    assert (Hr' : 0 <= r < NR) by (destruct S1; lia).
+    eapply (rel_after_write s s1 st st' locals locals vs); eauto.
+    + unfold cur_off. rewrite Eo, app_length. cbn [length]. rewrite !app_length, loc_bytes_length, i32_bytes_length. lia.
+    + constructor.
+      * cbn [provider_idx]. rewrite (denote_write_same M Mm r _ _ U); [apply Hw|lia|eapply reg_in_range; eauto].
+      * eapply stack_kept; eauto. intros q Hq. eapply (pwf_idx_ne_dyn s); eauto; try lia.
+        -- pose proof (w_stack _ _ W) as F. rewrite Es in F. rewrite Forall_forall in F. apply F. apply in_or_app. right; exact Hq.
+        -- intro E; subst q. contradiction.
+    + apply (r_nl _ _ _ _ _ R).
+    + eapply locals_kept; eauto. lia.
+Qed.
+
+(** ** instructions that emit no code *)
+Lemma rel_same s s' st locals vs M :
+  c_stack s' = c_stack s -> c_out s' = c_out s -> rel s st locals vs M -> rel s' st locals vs M.
+Proof.
+  intros Es Eo R. destruct R. constructor; auto.
+  - unfold cur_off. rewrite Eo. exact r_pc0.
+  - rewrite Es. exact r_stack0.
+Qed.
+Lemma mono_refl s : mono s s. Proof. split; [lia|exists []; rewrite app_nil_r; reflexivity]. Qed.
+Lemma cwf_last s l : cwf nl s -> cwf nl (set_last s l).
+Proof. apply cwf_same. repeat split. Qed.
+
+Lemma step_nop s st locals vs M :
+  cwf nl s -> rel s st locals vs M ->
+  step_ok s (set_last s None) M (exec_simple cap BNop st locals vs) /\ c_last (set_last s None) = None.
+Proof.
+  intros W R. split; [|reflexivity]. exists []. split; [cbn; rewrite app_nil_r; reflexivity|]. split; [split; [cbn; lia|exists []; cbn; rewrite app_nil_r; reflexivity]|].
+  intros _. cbn. split; [apply cwf_last; exact W|]. exists O, M. split; [reflexivity|]. split; [|apply frame_eq_refl].
+  eapply rel_same; [| |exact R]; reflexivity.
+Qed.
+
+Lemma step_drop s s1 p st locals vs M :
+  cwf nl s -> rel s st locals vs M -> consume (set_last s None) = Some (p, s1) ->
+  step_ok s s1 M (exec_simple cap BDrop st locals vs) /\ c_last s1 = None.
+Proof.
+  intros W R H. destruct (consume_spec nl _ p s1 H (cwf_last s None W)) as (Es & (O1 & O2 & O3) & En & Ec & W1 & Wp).
+  cbn [c_stack c_out c_last c_next c_consts set_last] in *. split; [|exact O3].
+  exists []. split; [rewrite app_nil_r; exact O1|]. split; [split; [lia|exists []; rewrite app_nil_r; exact Ec]|].
+  intros _. pose proof (r_stack _ _ _ _ _ R) as RS. rewrite Es in RS. inversion RS as [|? v ? vs' Rp Rr]; subst.
+  cbn. split; [exact W1|]. exists O, M. split; [reflexivity|]. split; [|apply frame_eq_refl].
+  destruct R. constructor; auto. unfold cur_off. rewrite O1. exact r_pc0.
+Qed.
+
+Lemma step_local_get s i st locals vs M :
+  cwf nl s -> rel s st locals vs M ->
+  step_ok s (provide_existing (set_last s None) (PLocal (Z.of_nat i))) M (exec_simple cap (BLocalGet i) st locals vs)
+  /\ c_last (provide_existing (set_last s None) (PLocal (Z.of_nat i))) = None.
+Proof.
+  intros W R. split; [|reflexivity]. exists []. split; [cbn; rewrite app_nil_r; reflexivity|]. split; [split; [cbn; lia|exists []; cbn; rewrite app_nil_r; reflexivity]|].
+  intros _. cbn [exec_simple]. unfold nth_opt. destruct (nth_error locals i) as [v|] eqn:E; [|exact I]. cbn [ok sim_result].
+  assert (Hi : 0 <= Z.of_nat i < nl).
+  { rewrite <- (r_nl _ _ _ _ _ R). split; [lia|]. apply inj_lt. apply nth_error_Some. congruence. }
+  split; [apply cwf_push_local; [apply cwf_last; exact W|exact Hi]|].
+  exists O, M. split; [reflexivity|]. split; [|apply frame_eq_refl].
+  destruct R. constructor; auto. cbn. constructor; [|exact r_stack0].
+  unfold denote. cbn [provider_idx]. rewrite get_local_nonneg by lia. apply r_locals0. exact E.
+Qed.
+
+Lemma const_repr t z cst :
+  0 <= z < 2 ^ bits t -> cst = const_i64 t z -> repr (from_i64 cst) (mkval t z).
+Proof.
+  intros Hz ->. unfold from_i64, two64, const_i64. destruct t; cbn [bits mkval repr] in *.
+  - change (2 ^ 32) with 4294967296 in Hz. unfold low32, two32.
+    destruct (Z.ltb_spec z 2147483648).
+    + rewrite (Z.mod_small z 18446744073709551616) by lia. apply Z.mod_small; lia.
+    + replace ((z - 4294967296) mod 18446744073709551616) with (z - 4294967296 + 18446744073709551616).
+      * replace (z - 4294967296 + 18446744073709551616) with (z + 4294967295 * 4294967296) by lia.
+        rewrite Z.mod_add by lia. apply Z.mod_small; lia.
+      * symmetry. replace (z - 4294967296) with ((z - 4294967296 + 18446744073709551616) + (-1) * 18446744073709551616) at 1 by lia.
+        rewrite Z.mod_add by lia. apply Z.mod_small; lia.
+  - change (2 ^ 64) with 18446744073709551616 in Hz. unfold as_u64, two64. rewrite Z.mod_mod by lia.
+    destruct (Z.ltb_spec z 9223372036854775808).
+    + apply Z.mod_small; lia.
+    + replace (z - 18446744073709551616) with (z + (-1) * 18446744073709551616) by lia.
+      rewrite Z.mod_add by lia. apply Z.mod_small; lia.
+Qed.
+
+Lemma step_const s t z st locals vs M :
+  cwf nl s -> rel s st locals vs M -> 0 <= z < 2 ^ bits t ->
+  consts_ok (push_constant (set_last s None) (const_i64 t z)) ->
+  step_ok s (push_constant (set_last s None) (const_i64 t z)) M (exec_simple cap (BConst t z) st locals vs)
+  /\ c_last (push_constant (set_last s None) (const_i64 t z)) = None.
+Proof.
+  intros W R Hz CO.
+  destruct (push_constant_spec nl (set_last s None) (const_i64 t z) (cwf_last s None W))
+    as (idx & Es & (O1 & O2 & O3) & En & Er & (ext & Ec) & Hneg & Hnth & W1).
+  cbn [c_stack c_out c_last c_next c_consts c_reuse set_last] in *. split; [|exact O3].
+  exists []. split; [rewrite app_nil_r; exact O1|]. split; [split; [lia|exists ext; exact Ec]|].
+  intros _. cbn [exec_simple ok]. split; [exact W1|]. exists O, M. split; [reflexivity|]. split; [|apply frame_eq_refl].
+  destruct R. constructor; auto.
+  - unfold cur_off. rewrite O1. exact r_pc0.
+  - rewrite Es. constructor; [|exact r_stack0].
+    unfold denote, get_local. cbn [provider_idx]. destruct (Z.leb_spec 0 idx); [lia|].
+    rewrite (CO _ _ _ Hnth). apply const_repr; auto.
 Qed.
 
 End Straight.
